@@ -133,7 +133,8 @@ CHECKS = {
             'DESIGN.md section 7 C12'),
     'C13': ('F3 WASI agent + Hypothesis RuleBasedStateMachine',
             'stateful PBT against a descriptor-table model: live / closed / never-issued / huge descriptor numbers through every '
-            'descriptor-taking call of both ABIs, standard streams, pre-opens; ASan turns use-after-free/double-free into failures',
+            'descriptor-taking call of both ABIs, standard streams, pre-opens; ASan turns use-after-free/double-free into failures; '
+            'generated many-descriptor cases (up to 131080 descriptors issued in one process, numbers around table sizes probed)',
             'History search with bundles of live and closed descriptors: freshness of new descriptors, EBADF from every call on '
             'closed, never-issued, next-to-be-issued and huge numbers (incl. as directory handle and repeated close), bytes through '
             'fds 0-2 reach the prepared files, pre-opens report their path; the agent runs under AddressSanitizer.',
@@ -141,7 +142,8 @@ CHECKS = {
     'C14': ('F3 WASI agent + Hypothesis RuleBasedStateMachine + libFuzzer target c/fz_resolvepath.c',
             'stateful PBT differential against the host kernel (path operations on a mirror tree, lengths up to 2*PATH_MAX, '
             'non-NUL-terminated guest paths), a standard fd_readdir client with resume/restart against os.listdir/lstat, and a '
-            'coverage-guided libFuzzer campaign on resolvePath with the join oracle inside the target (ASan, exact-size buffers)',
+            'coverage-guided libFuzzer campaign on resolvePath with the join oracle inside the target (ASan, exact-size buffers); '
+            'metamorphic PBT of concurrent path calls (generated per-thread scripts below disjoint directories: concurrent run == sequential run)',
             'Model-based history search: every path-taking call through pre-open and opened directory descriptors is mirrored by '
             'the POSIX call; empty and over-long paths must be rejected without effect and without sanitizer report; listings must '
             'be complete, exactly-once, resumable from any cookie and restartable; resolvePath is fuzzed in process.',
@@ -167,7 +169,8 @@ CHECKS = {
     'C19': ('F1 end-to-end histories under forced WASM_ENDIAN + big-endian-configured translator build',
             'metamorphic/model-based PBT: the same memory and atomic histories are built with WASM_ENDIAN forced to 0 and to 1; the '
             'byte-array model takes the byte order as a parameter and must match after every call; translator variant built with '
-            'WASM_ENDIAN=1 must emit byte-reversed float immediates',
+            'WASM_ENDIAN=1 must emit byte-reversed float immediates; the WASI histories of C12-C15 (Hypothesis state machines + case '
+            'generators, POSIX mirror as oracle) against an agent built with WASM_ENDIAN=1, guest structures read in the mirrored layout',
             'Every multi-byte load/store/atomic/RMW flavour is driven through generated histories in both forced configurations '
             'and compared byte for byte (CRC + dumps + results) with the model of that configuration, which is exactly the '
             '"one reversal of exactly that width" relation; 8-bit accesses and bulk copies must be identical.',
@@ -175,7 +178,7 @@ CHECKS = {
             'DESIGN.md section 7 C19'),
     'C17': ('F4 vsched (c/vsched.c: linker-interposed deterministic scheduler) + c/sched_harness.c + linearizable model in vf/sched.py + rapidcheck model test c/rc_futexmap.cpp',
             'schedule-as-input PBT: generated per-thread wait/notify/store programs x generated decision strings (next thread, '
-            'spurious wake-ups, signalled waiter, timeout firing) executed deterministically under --wrap=pthread_* interposition; '
+            'spurious wake-ups, signalled waiter, timeout firing, a virtual clock behind clock_gettime) executed deterministically under --wrap=pthread_* interposition; '
             'oracle = linearizable model at the mutex acquisition; programs and decision strings are shrunk; rapidcheck model-based '
             'test of the futex map + wait lists against std::map (ASan+UBSan)',
             'The harness owns the schedule: every lock/unlock/wait/signal of futex.c and the runtime header is a scheduling point '
